@@ -65,6 +65,9 @@ SETTERS = [
     # resources that only ever grow during a run: a source line far longer than the initial line buffer, a deep macro nest
     "\tcpu 6809\n\tfcb " + ",".join(["1"] * 300) + " ; " + "x" * 900, "\tcpu z80\n\tdb " + ",".join(["2"] * 330) + "\n; " + "x" * 3000,
     "\tcpu z80\nlng\tmacro p\n\tdb " + "1," * 300 + "p\n\tendm\n\tlng " + "9" * 900,
+    # a source that ends while a prefix instruction's window is still open
+    "\tcpu 80c167\n\textp r5,#2\n\tmov r1,8120h", "\tcpu 80c167\n\textr #1", "\tcpu 80c167\n\textsr #1,#3\n\tnop", "\tcpu 80c167\n\tatomic #4\n\tnop",
+    "\tcpu 8086\n\trep", "\tcpu z80\n\tdb 0ddh", "\tcpu 68hc12\n\tfcb $18", "\tcpu 6309\n\tfcb $10",
     # relocation bookkeeping registered behind the last data of the file
     "\tcpu 68000\nlkx:\tdc.l 1\n\tds.b 4\n\texport_sym lkx", "\tcpu 8051\n\textern_sym lki\n\tljmp lki\n\tds 2\n\texport_sym lki2",
     "\tcpu 68000\n\trseg\nlkr:\tdc.l lkr\n\tds.b 2\n\texport_sym lkr", "\tcpu z80\nlkz:\tnop\n\tds 3\n\texport_sym lkz\n\tend lkz",
@@ -97,6 +100,7 @@ PROBES = {
     "sx20d": "\tcpu sx20\n\tsegment data\nv:\tres 2\nw:\tres 1\n\tsegment code\n\tmov w,#w\n\tdata w\n",
     "47c00": "\tcpu 47c00\n\tsegment data\nv:\tds 2\nw:\tds 1\n\tsegment code\n\tld a,w\n",
     "avr": "\tcpu at90s8515\n\tsegment data\nv:\tres 2\nw:\tres 1\n\tsegment code\n\tlds r1,w\n",
+    "c166": "\tcpu 80c167\n\tmov r1,8120h\n\tmov r2,0f120h\n\tmov 0fe10h,r3\n\tmov r4,0c000h\n\tadd r1,0f000h\n",
     "st6": "\tcpu st6210\n\tword 1234h,5678h\n\tbyte 1\n\tascii \"ab\"\n\tld a,12h\n",
     "6805": "\tcpu 6805\n\tfdb $1234\n\tdw $5678\n\tlda $12\n\tlda $1234\n",
     "6811": "\tcpu 6811\n\tfdb $1234\n\tdw $5678\n\tadr $9abc\n\tldaa $12\n\tldaa $1234\n",
